@@ -181,3 +181,64 @@ func hasCmp(cs []Cmp, pred func(op token.Token, x, y ssa.Value) bool) bool {
 	}
 	return false
 }
+
+// Infeasible reports that the path takes an edge whose condition, with phis resolved along the
+// path, compares two constants and is false (e.g. `x != nil` where x is nil on this path).
+func (p Path) Infeasible() bool {
+	for _, c := range p.Cmps() {
+		x, y := p.Resolve(c.X), p.Resolve(c.Y)
+		if v, known := evalConstCmp(c.Op, x, y); known && !v {
+			return true
+		}
+	}
+	return false
+}
+
+func evalConstCmp(op token.Token, x, y ssa.Value) (val, known bool) {
+	cx, okx := x.(*ssa.Const)
+	cy, oky := y.(*ssa.Const)
+	if !okx || !oky {
+		return false, false
+	}
+	if cx.Value == nil || cy.Value == nil {
+		// nil constants
+		if cx.Value == nil && cy.Value == nil {
+			switch op {
+			case token.EQL:
+				return true, true
+			case token.NEQ:
+				return false, true
+			}
+		}
+		return false, false
+	}
+	if a, ok := constInt(cx); ok {
+		if b, ok := constInt(cy); ok {
+			switch op {
+			case token.EQL:
+				return a == b, true
+			case token.NEQ:
+				return a != b, true
+			case token.LSS:
+				return a < b, true
+			case token.LEQ:
+				return a <= b, true
+			case token.GTR:
+				return a > b, true
+			case token.GEQ:
+				return a >= b, true
+			}
+		}
+	}
+	if a, ok := constBool(cx); ok {
+		if b, ok := constBool(cy); ok {
+			switch op {
+			case token.EQL:
+				return a == b, true
+			case token.NEQ:
+				return a != b, true
+			}
+		}
+	}
+	return false, false
+}
